@@ -382,7 +382,7 @@ impl World for WorldO {
             let abort = opt_abort(rng, f_abort, 120);
             let admin = |rng: &mut Rng| if fault { *rng.pick(&[AuthVar::Former, AuthVar::OtherRole, AuthVar::Counterparty, AuthVar::Stranger, AuthVar::Nobody, AuthVar::RightOtherArgs]) } else { AuthVar::Right };
             let op = match rng.weighted(&w) {
-                0 => OOp::Add { who: rng.range(1, 4) as u8, auth: admin(rng), abort },
+                0 => OOp::Add { who: if rng.chance(1, 8) { 0 } else { rng.range(1, 4) as u8 }, auth: admin(rng), abort },
                 1 => OOp::Remove { who: rng.range(1, 4) as u8, auth: admin(rng), abort },
                 2 => OOp::TransferOwnership { to: rng.below(NP as u64) as u8, auth: admin(rng), abort },
                 3 => {
@@ -398,7 +398,7 @@ impl World for WorldO {
                         _ => Target::WrongArity,
                     };
                     OOp::Execute {
-                        operator: if rng.chance(5, 6) { rng.range(1, 4) as u8 } else { rng.below(NP as u64) as u8 },
+                        operator: if rng.chance(5, 6) { rng.range(0, 4) as u8 } else { rng.below(NP as u64) as u8 },
                         target,
                         auth: if fault { *rng.pick(&[AuthVar::OtherRole, AuthVar::Owner, AuthVar::Stranger, AuthVar::Nobody, AuthVar::RightOtherArgs]) } else { AuthVar::Right },
                         abort,
